@@ -17,6 +17,7 @@
 package gnet
 
 import (
+	"errors"
 	"io"
 	"net"
 	"os"
@@ -154,7 +155,11 @@ func (c *conn) write(data []byte) (n int, err error) {
 
 	defer func() {
 		if err != nil {
-			_ = c.loop.close(c, os.NewSyscallError("write", err))
+			// OnClose may ask for a shutdown, honor it even though the result
+			// of close can't be returned to the event-loop from here.
+			if e := c.loop.close(c, os.NewSyscallError("write", err)); errors.Is(e, errorx.ErrEngineShutdown) {
+				c.loop.engine.shutdown(e)
+			}
 		}
 	}()
 
@@ -206,7 +211,11 @@ func (c *conn) writev(bs [][]byte) (n int, err error) {
 
 	defer func() {
 		if err != nil {
-			_ = c.loop.close(c, os.NewSyscallError("writev", err))
+			// OnClose may ask for a shutdown, honor it even though the result
+			// of close can't be returned to the event-loop from here.
+			if e := c.loop.close(c, os.NewSyscallError("writev", err)); errors.Is(e, errorx.ErrEngineShutdown) {
+				c.loop.engine.shutdown(e)
+			}
 		}
 	}()
 
